@@ -58,7 +58,9 @@ fn one_run(program_seed: u64, schedule_seed: u64, mix: &str) -> (Vec<serde_json:
     let nclients = 2 + prng.below(2) as usize;
     for _ in 0..nclients {
         let fifo = *prng.pick(&fifos);
-        bus.add_client(&mut srng, fifo, None);
+        // mostly the latest version; with "versions" in the mix every client draws one of 1.14 .. 1.20
+        let minor = if mix.split(',').any(|m| m == "versions") { Some(14 + prng.below(7) as u32) } else { None };
+        bus.add_client3(&mut srng, fifo, None, None, minor);
     }
     let n = bus.clients.len();
     let tokens = Rc::new(Cell::new(0u32));
